@@ -168,7 +168,7 @@ def typeBase (defs : GroupDefs) : Nat := defBase defs defs.length
 
 /-- UNGROUP, then the FLATTEN handlers -/
 def occursG (defs : GroupDefs) (p : GParticle) : Option (List Site) :=
-  (gsites defs p (typeBase defs)).bind occurs
+  (gsites defs p (typeBase defs)).map occurs
 
 /-- all the classes of a schema: the content models `types` in document order after the definitions -/
 def schemaSites (defs : GroupDefs) (types : List GParticle) : List (Option (List Site)) :=
